@@ -9,6 +9,7 @@ import "strconv"
 type c05Producer struct {
 	calls   int
 	yielded []Object
+	pool    []Object // when set: the values yielded, in order (so that a caller can hold the same objects)
 }
 
 var (
@@ -31,7 +32,10 @@ func (p *c05Producer) M__next__() (Object, error) {
 	}
 	switch lo + verifChoice("next"+strconv.Itoa(p.calls), n) {
 	case 0:
-		v := &c04Tok{id: 100 + p.calls}
+		var v Object = &c04Tok{id: 100 + p.calls}
+		if p.pool != nil && len(p.yielded) < len(p.pool) {
+			v = p.pool[len(p.yielded)]
+		}
 		p.yielded = append(p.yielded, v)
 		return v, nil
 	case 1:
@@ -195,6 +199,9 @@ func VerifC05GeneratorStates() {
 			return &c04Tok{id: 200 + calls}, nil
 		case 1:
 			f.Yielded = false
+			if verifChoice("retval"+strconv.Itoa(calls), 2) == 1 {
+				return &c04Tok{id: 300 + calls}, nil // return <value>
+			}
 			return None, nil
 		}
 		return nil, c05Other
@@ -217,10 +224,78 @@ func VerifC05GeneratorStates() {
 			verifAssert(err == nil && ok && t.id == 200+calls, "the yielded value is returned")
 		case 1:
 			verifAssert(err != nil && IsException(StopIteration, err), "a return ends the generator with StopIteration")
+			if verifChoiceOf("retval"+strconv.Itoa(calls)) == 1 {
+				t, ok := c05StopValue(err).(*c04Tok)
+				verifAssert(ok && t.id == 300+calls, "the return value of the generator is carried by the StopIteration")
+			} else {
+				verifAssert(c05StopValue(err) == Object(None), "a plain return carries None")
+			}
 			finished = true
 		default:
 			verifAssert(err == error(c05Other), "an exception propagates unchanged")
 			finished = true // a generator that raised is finished
 		}
 	}
+}
+
+// A consumer that can stop early (membership test, Iterate with a callback
+// that says stop) takes from the iterator exactly the items up to the one that
+// decides, and not one more: the producer is left where a later next() continues.
+//
+//verif:property C05
+//verif:expect consumed
+func VerifC05StopsAtMatch() {
+	for _, t := range []*Type{BaseException, ExceptionType, StopIteration, LookupError, KeyError} {
+		_ = t.Ready()
+	}
+	pool := []Object{&c04Tok{id: 201}, &c04Tok{id: 202}}
+	p := &c05Producer{pool: pool}
+	k := verifChoice("k", 2)
+	var found bool
+	var err error
+	if verifChoice("consumer", 2) == 0 {
+		found, err = SequenceContains(p, pool[k])
+	} else {
+		n := 0
+		err = Iterate(p, func(o Object) bool {
+			n++
+			if o == pool[k] {
+				found = true
+				return true
+			}
+			return false
+		})
+	}
+	verifReach("consumed")
+	if len(p.yielded) > k {
+		// the producer got as far as the item looked for
+		verifAssert(err == nil && found, "the item is found")
+		verifAssert(p.calls == k+1 && len(p.yielded) == k+1, "the iterator is not advanced past the item that decides")
+		return
+	}
+	verifAssert(!found, "an item the iterator never produced is not found")
+	switch c05Ended(p) {
+	case 1:
+		verifAssert(err == nil, "StopIteration in any form ends the search normally")
+	case 2:
+		verifAssert(err == error(c05Other), "any other exception propagates unchanged")
+	}
+}
+
+// c05StopValue: the value a StopIteration carries: its first argument, None if it has none
+func c05StopValue(err error) Object {
+	var ex *Exception
+	switch e := err.(type) {
+	case *Exception:
+		ex = e
+	case ExceptionInfo:
+		ex, _ = e.Value.(*Exception)
+	}
+	if ex == nil {
+		return None // raised as the bare class
+	}
+	if args, ok := ex.Args.(Tuple); ok && len(args) > 0 {
+		return args[0]
+	}
+	return None
 }
